@@ -198,7 +198,7 @@ func (e *Exec) decide(alts []*Term) int {
 			feas = append(feas, i) // exhaustive ⇒ must be feasible
 			break
 		}
-		r := e.sol.Check(a)
+		r := e.sol.CheckBranch(a)
 		if r == "unsat" {
 			continue
 		}
@@ -1043,6 +1043,7 @@ func (e *Exec) binopTerm(op token.Token, x, y *Term, typ types.Type) Value {
 					return BoolT(c >= 0)
 				}
 			}
+			e.assertPC(Eq(Eq(App("str.ord", IntSort, x), App("str.ord", IntSort, y)), strEq(x, y)))
 			lt := ILt(App("str.ord", IntSort, x), App("str.ord", IntSort, y))
 			gt := ILt(App("str.ord", IntSort, y), App("str.ord", IntSort, x))
 			switch op {
